@@ -727,6 +727,12 @@ def string_fragment(report, uri_consts, shape_consts):
             ("shexer/io/graph/yielder/big_ttl_triples_yielder.py", 'BigTtlTriplesYielder', '_next_line_token', 'ttl_next_line_token',
              {'self._base': 'optstr', 'a_line': 'str', 'start_index': 'int'}, 'optstrint'),
             ("shexer/io/graph/yielder/big_ttl_triples_yielder.py", 'BigTtlTriplesYielder', '_clean_line', 'ttl_clean_line', {'str_line': 'str'}, 'str'),
+            ("shexer/io/graph/yielder/big_ttl_triples_yielder.py", 'BigTtlTriplesYielder', '_check_directive_alone_in_its_line', 'ttl_check_directive_alone_in_its_line',
+             {'line': 'str', 'pieces': 'strlist', 'expected_pieces': 'int'}, 'unit'),
+            ("shexer/io/graph/yielder/big_ttl_triples_yielder.py", 'BigTtlTriplesYielder', '_process_prefix_line', 'ttl_process_prefix_line',
+             {'self._prefixes': 'strdict', 'line': 'str'}, 'strpair'),
+            ("shexer/io/graph/yielder/big_ttl_triples_yielder.py", 'BigTtlTriplesYielder', '_process_base_line', 'ttl_process_base_line',
+             {'self._base': 'optstr', 'line': 'str'}, 'str'),
             ("shexer/io/graph/yielder/big_ttl_triples_yielder.py", 'BigTtlTriplesYielder', '_is_num_literal', 'ttl_is_num_literal', {'elem': 'str'}, 'bool'),
             ("shexer/io/graph/yielder/big_ttl_triples_yielder.py", 'BigTtlTriplesYielder', '_parse_elem', 'ttl_parse_elem',
              {'self._base': 'optstr', 'self._prefixes': 'strdict', 'raw_elem': 'str'}, 'optstr')]
@@ -777,7 +783,7 @@ def string_fragment(report, uri_consts, shape_consts):
             local.update(more_consts)
             ok_tr = XS.translate(out, report, assumptions, 'S.' + lname, fn, types, ret, local)
             plain = lambda t: t in ('str', 'bool', 'int', 'strdict', 'optstr')
-            if ok_tr and cls is not None and ret in ('str', 'bool', 'int', 'optstr'):
+            if ok_tr and cls is not None and ret in ('str', 'bool', 'int', 'optstr', 'unit'):
                 funcs.setdefault((rel, cls), {})['self.' + pyname] = ('func', lname, [(a.arg, types[a.arg]) for a in fn.args.args if a.arg != 'self'], ret, {},
                                                                      [k for k in types if k.startswith('self.')], "(fuel : Nat)" in out[-1],
                                                                      "(resolve :" in out[-1], "(floatOf :" in out[-1])
@@ -824,6 +830,7 @@ def string_fragment(report, uri_consts, shape_consts):
                                                   else "(%s).map fun i => some (toString i).toList" % call if ret == 'int'
                                                   else "(%s).map fun l => some (l.flatMap fun t => t ++ [Char.ofNat 1])" % call if ret == 'strlist'
                                                   else "(%s).map fun p => some (p.1 ++ [Char.ofNat 1] ++ p.2)" % call if ret == 'strpair'
+                                                  else "(%s).map fun _ => some []" % call if ret == 'unit'
                                                   else "(%s).map fun o => some (showObj o)" % call if ret == 'obj'
                                                   else "(%s).map fun r => r.map fun p => p.1 ++ [Char.ofNat 1] ++ (toString p.2).toList" % call if ret == 'optstrint'
                                                   else "(%s).map some" % call))
